@@ -594,11 +594,12 @@ class SBool(object):
 
 class SInt(object):
     ''' Symbolic mathematical integer. '''
-    __slots__ = ('e', 'part')
+    __slots__ = ('e', 'part', 'bsrc')
 
-    def __init__(self, e, part=None):
+    def __init__(self, e, part=None, bsrc=None):
         self.e = e
         self.part = part   # (z3 term v, byte index i, n): this is octet i (0 = least significant) of v encoded in n octets
+        self.bsrc = bsrc   # tuple of octet values this int was assembled from (big-endian), if any
 
     @property
     def __class__(self):
